@@ -905,6 +905,20 @@ func (n *TxNotifier) UpdateConfDetails(confRequest ConfRequest,
 	// Cache the details found in the rescan and attempt to dispatch any
 	// notifications that have not yet been delivered.
 	confSet.details = details
+
+	// Track the request for reorgs independently of its clients: they may
+	// all have canceled while the rescan was in flight, in which case the
+	// per-client dispatch below never gets to index it and the cached
+	// details would survive the disconnection of their block.
+	if details.BlockHeight+n.reorgSafetyLimit > n.currentHeight {
+		txSet, exists := n.confsByInitialHeight[details.BlockHeight]
+		if !exists {
+			txSet = make(map[ConfRequest]struct{})
+			n.confsByInitialHeight[details.BlockHeight] = txSet
+		}
+		txSet[confRequest] = struct{}{}
+	}
+
 	for _, ntfn := range confSet.ntfns {
 		// The default notification we assigned above includes the
 		// block along with the rest of the details. However not all
@@ -1374,6 +1388,19 @@ func (n *TxNotifier) updateSpendDetails(spendRequest SpendRequest,
 		"request %v", details.SpendingHeight, spendRequest)
 
 	spendSet.details = details
+
+	// Track the request for reorgs independently of its clients: they may
+	// all have canceled while the rescan was in flight.
+	spendHeight := uint32(details.SpendingHeight)
+	if spendHeight+n.reorgSafetyLimit > n.currentHeight {
+		opSet, exists := n.spendsByHeight[spendHeight]
+		if !exists {
+			opSet = make(map[SpendRequest]struct{})
+			n.spendsByHeight[spendHeight] = opSet
+		}
+		opSet[spendRequest] = struct{}{}
+	}
+
 	for _, ntfn := range spendSet.ntfns {
 		err := n.dispatchSpendDetails(ntfn, spendSet.details)
 		if err != nil {
